@@ -425,6 +425,32 @@ func firstUse(rec *hx.Recorder) {
 	rec.NonTrivialEnum(int64(n))
 }
 
+// cpuCounts: the sum does not depend on how many processors the program may
+// use. Large and small inputs are summed under GOMAXPROCS 1, 2, 3, 5, 6, 7,
+// 12 and 13 (powers of two and not) through Checksum, one Write and pieces.
+func cpuCounts(rec *hx.Recorder) {
+	old := runtime.GOMAXPROCS(0)
+	defer runtime.GOMAXPROCS(old)
+	n := int64(0)
+	for _, procs := range []int{1, 2, 3, 5, 6, 7, 12, 13} {
+		runtime.GOMAXPROCS(procs)
+		for _, l := range []int{1000, 1 << 16, 1<<20 - 1, 1 << 20, 1<<20 + 1, 3<<20 + 5, 1<<24 + 1} {
+			if l > 1<<22 && procs != 3 && procs != 6 && !hx.Thorough() {
+				continue
+			}
+			c := bigCase{Seed: uint64(l + procs), Len: l, Cuts: []int{l / 3, l - l/7}}
+			n++
+			if msg, ok := checkBigCase(c); !ok {
+				rec.Fail("cpu-counts", "", fmt.Sprintf("with GOMAXPROCS=%d: %s", procs, msg), c)
+				rec.Eval("cpu-counts", n)
+				return
+			}
+		}
+	}
+	rec.Eval("cpu-counts", n)
+	rec.NonTrivialEnum(n)
+}
+
 // buildVariants runs the children described at TestMain.
 func buildVariants(rec *hx.Recorder) {
 	for _, v := range []struct{ env, name string }{
@@ -462,6 +488,8 @@ func TestC14(t *testing.T) {
 			switch rp.Sub {
 			case "first-use":
 				firstUse(rec)
+			case "cpu-counts":
+				cpuCounts(rec)
 			case "build-variants":
 				buildVariants(rec)
 			case "large-writes":
@@ -489,6 +517,7 @@ func TestC14(t *testing.T) {
 
 		buildVariants(rec)
 		firstUse(rec)
+		cpuCounts(rec)
 
 		// Exhaustive: all 65536 x 256 transitions through the public API.
 		var bad atomic.Int64
